@@ -11,6 +11,7 @@ class Contract:
     defaults    : dict name -> python value for parameters with defaults (used by bind at call sites)
     requires / ensures : lists of spec strings (Python expressions + forall/exists/implies/old/ite)
     raises      : dict ExceptionName -> spec string, *exactly* the condition under which it is raised
+    raises_only_if : dict ExceptionName -> spec string that holds whenever it is raised (one direction only)
                   (checked in both directions: raise sites imply it, normal returns imply its negation)
     loops       : dict loop ordinal (AST order inside the function) -> list of invariant strings;
                   the ghost iteration counter is ``_k<ordinal>`` (also ``_k``)
@@ -25,11 +26,12 @@ class Contract:
     def __init__(self, qual, params, requires=(), ensures=(), raises=None, loops=None, measures=None, ghost=None,
                  make_inputs=None, make_result=None, havoc=None, defaults=None, is_property=False, modifies=(),
                  axioms=(), trace_op=None, stable_shapes=(), list_havoc=None, obj_havoc=None, cases=None,
-                 notes="", assumed=False, sym_lists=None, float_model=False, sym_dicts=()):
+                 notes="", assumed=False, sym_lists=None, float_model=False, sym_dicts=(), raises_only_if=None):
         self.qual, self.params = qual, list(params)
         self.short = qual.split(".", 2)[-1] if qual.count(".") >= 2 else qual
         self.requires, self.ensures = list(requires), list(ensures)
         self.raises = dict(raises or {})
+        self.raises_only_if = dict(raises_only_if or {})      # ExceptionName -> condition that holds whenever it is raised (no converse claimed)
         self.loops = {int(k): list(v) for k, v in (loops or {}).items()}
         self.measures = dict(measures or {})
         self.ghost = dict(ghost or {})
